@@ -264,6 +264,22 @@ impl GossipNodeState {
             self.incarnation > other.incarnation
         }
     }
+
+    /// Deterministic tie-break for states with equal incarnation and timestamp:
+    /// the more severe health wins (SWIM: suspect overrides alive, failed overrides suspect).
+    const fn wins_tie_against(&self, other: &Self) -> bool {
+        const fn severity(health: NodeHealth) -> u8 {
+            match health {
+                NodeHealth::Unknown => 0,
+                NodeHealth::Healthy => 1,
+                NodeHealth::Degraded => 2,
+                NodeHealth::Failed => 3,
+            }
+        }
+        self.incarnation == other.incarnation
+            && self.timestamp == other.timestamp
+            && severity(self.health) > severity(other.health)
+    }
 }
 
 /// Gossip protocol messages.
@@ -377,7 +393,9 @@ impl LWWMembershipState {
                         "State superseded"
                     );
                 }
-                supersedes
+                // Equal (incarnation, timestamp) with different health: neither side supersedes,
+                // so break the tie by severity to keep the merge independent of arrival order.
+                supersedes || state.wins_tie_against(existing)
             });
 
             if should_update {
